@@ -297,7 +297,7 @@ selection pending, `eof` flags set, buffered heads of the old position) whose so
 (`g s` well formed, forward) is, after `ApplyState`, a well-formed tree over the moved sources: its read is a permutation of
 what the moved sources deliver alone, keeps each source's order, is ascending when each is — nothing of the old position is
 served. Sources: a direction switch there and back does not change what a source will deliver (`hround`), nor does a `Release`
-in between (`hrel`); both hold for the in-memory iterator (`Leaf.reposition_laws`) — the journal iterators only set a flag. -/
+in between (`hrel`); both hold for the in-memory iterator (`leaf_reposition_laws`) — the journal iterators only set a flag. -/
 theorem repositioned_cursor_serves_new_position (t : It σ) (h : t.WF) (hd : t.dir = false) (g : σ → σ)
     (hg : ∀ s ∈ t.leaves, wf (g s) ∧ dir (g s) = false)
     (hrel : ∀ s : σ, wf s → view (Source.setBackward false (Source.release s)) = view (Source.setBackward false s))
@@ -345,7 +345,7 @@ theorem repositioned_cursor_serves_new_position (t : It σ) (h : t.WF) (hd : t.d
   simpa only [ord_false] using this
 
 /-- the in-memory iterator meets the two source hypotheses of `repositioned_cursor_serves_new_position` -/
-theorem Leaf.reposition_laws (l : Leaf) (hb : l.bkwd = false) :
+theorem leaf_reposition_laws (l : Leaf) (hb : l.bkwd = false) :
     view (Source.setBackward false (Source.release l)) = view (Source.setBackward false l) ∧
     view (Source.setBackward false (Source.setBackward true l)) = view l := by
   refine ⟨rfl, ?_⟩
